@@ -191,6 +191,19 @@ def gen_swaps_small(tier):
                 yield swaps_case(tree, 0, 0, radix, lat)
 
 
+def gen_swaps_depth1(tier):
+    """merge level one below the root (depth 1): every root of <= 2 second-level fibers, each of
+    <= 2 leaf fibers over 2 coordinates (incl. empty ones, which the walk skips)"""
+    kids = [leaf(s) for s in subsets(2)]
+    mids = [[[i, ch] for i, ch in enumerate(combo)] for m in range(0, 3)
+            for combo in itertools.product(kids, repeat=m)]
+    for m in range(0, 3):
+        for combo in itertools.product(mids, repeat=m):
+            tree = [[3 * i, mid] for i, mid in enumerate(combo)]
+            for radix, lat in ((2, 1), (2, "N")) if tier == "quick" else ((2, 1), (2, "N"), ("inf", 2), (3, "N")):
+                yield swaps_case(tree, 0, 1, radix, lat)
+
+
 def gen_swaps_random(rng, count):
     for _ in range(count):
         e = rng.choice([0, 0, 1])
@@ -201,12 +214,13 @@ def gen_swaps_random(rng, count):
         tree = H.gen_tree(rng, e + 2 + depth, n, (1, 2, -3, 5), dflt, p_absent=rng.choice([0.2, 0.4]),
                           p_default=pdef, p_emptysub=rng.choice([0.0, 0.1]),
                           p_alldefault=rng.choice([0.0, 0.1]))
-        yield swaps_case(tree, e, depth, rng.choice(RADICES + [2, 2]), rng.choice(LATS + [3]), dflt)
+        yield swaps_case(tree, e, depth, rng.choice(RADICES + [2, 2, 7]), rng.choice(LATS + [3, 10]), dflt)
 
 
 def gen(seed, tier):
     yield from gen_and_small(tier)
     yield from gen_swaps_small(tier)
+    yield from gen_swaps_depth1(tier)
     rng = random.Random(seed)
     yield from gen_and_random(rng, 4000 if tier == "quick" else 150000)
     yield from gen_swaps_random(rng, 3000 if tier == "quick" else 100000)
@@ -372,30 +386,47 @@ def _alarm(signum, frame):
     raise _Timeout()
 
 
+CPU_LIMIT = 3.0          # seconds of CPU time per case (a case normally takes ~1 ms)
+_timeouts = {}           # kind -> number of timeouts seen by this worker process
+
+
 def run(case):
-    """a changed implementation may not terminate (e.g. a merge round that does not shrink the
-    list of lists): every case runs under a 10 s alarm and a timeout is an observation (ERR)"""
+    """A changed implementation may not terminate (e.g. a merge round that does not shrink the
+    list of lists): every case runs under an alarm on the CPU time of this process (not
+    wall-clock: a loaded machine must not produce timeouts) and a timeout is an observation
+    (ERR).  After 3 timeouts of one kind a worker stops running that kind and reports the
+    remaining cases as timed out too, so that the check still ends."""
     import signal
-    old = signal.signal(signal.SIGALRM, _alarm)
-    signal.setitimer(signal.ITIMER_REAL, 10.0)
+    kind = case["kind"]
+    if _timeouts.get(kind, 0) >= 3:
+        return _timed_out(case, "ERR:Timeout-not-run")
+    old = signal.signal(signal.SIGVTALRM, _alarm)
+    signal.setitimer(signal.ITIMER_VIRTUAL, CPU_LIMIT)
     try:
-        if case["kind"] == "swaps":
+        if kind == "swaps":
             return run_swaps(case)
         return run_and(case)
     except _Timeout:
+        _timeouts[kind] = _timeouts.get(kind, 0) + 1
         Metrics = H.ft().Metrics
         if Metrics.isCollecting():
             Metrics.traces = {}
             Metrics.endCollect()
-        case["implerr"] = "ERR:Timeout"
-        if case["kind"] == "swaps":
-            case["impl"] = "ERR"
-        else:
-            case["impl"] = {"batches": [], "tf": "ERR", "sa": "ERR", "lf0": "ERR", "lf1": "ERR", "lf": "ERR"}
-        return case
+        return _timed_out(case, "ERR:Timeout")
     finally:
-        signal.setitimer(signal.ITIMER_REAL, 0)
-        signal.signal(signal.SIGALRM, old)
+        signal.setitimer(signal.ITIMER_VIRTUAL, 0)
+        signal.signal(signal.SIGVTALRM, old)
+
+
+def _timed_out(case, what):
+    case["implerr"] = what
+    if case["kind"] == "swaps":
+        case["impl"] = "ERR"
+    else:
+        if "groups" not in case:
+            case["groups"] = []
+        case["impl"] = {"batches": [], "tf": "ERR", "sa": "ERR", "lf0": "ERR", "lf1": "ERR", "lf": "ERR"}
+    return case
 
 
 # ---------------------------------------------------------------------------------------
